@@ -188,11 +188,13 @@ func (ex *Exec) callStatic(st *State, fr *Frame, fn *ssa.Function, args []Value,
 		setRes(m(ex, st, fr, fn, args, pos))
 		return false
 	}
-	if res, ok := ex.modelByPattern(st, fr, fn, full, args, pos); ok {
-		setRes(res)
-		return false
-	}
 	sp := ex.Specs.Funcs[name]
+	if sp == nil || ex.pure != nil {
+		if res, ok := ex.modelByPattern(st, fr, fn, full, args, pos); ok {
+			setRes(res)
+			return false
+		}
+	}
 	// wrappers ($bound, $thunk) and synthetic functions: inline transparently
 	synthetic := fn.Synthetic != "" && fn.Blocks != nil
 	if sp != nil && !sp.Inline && ex.pure == nil {
@@ -424,6 +426,9 @@ func (ex *Exec) applyContract(st *State, fr *Frame, sp *FuncSpec, fn *ssa.Functi
 	env := ex.calleeEnv(st, sp, fn, sig, args, recvName)
 	env.lets = sp.Lets
 	for i, c := range sp.Requires {
+		if ex.inSpecCall {
+			break // a contract function applied inside a specification expression: a term, not a call that happens
+		}
 		t := ex.evalBool(env, c.Expr)
 		ex.emit(st, "pre", fmt.Sprintf("%s:%s@%s", sp.Name, clauseLabel(c, i), ex.callSite(fr, pos)), t, pos, mergeProps(sp.Props, c.Props))
 		st.assume(t)
